@@ -63,12 +63,16 @@ PROPS = {
         "classes, query = claim with several LP tokens (the farm scenarios query Rewards before claims and split claims with "
         "until_epoch; compared with the model on every run)."),
     "C14": P("Props/C14.v", [("pool-scn", 40, 500), ("fault-scn", 32, 400), ("probe-scn", 15, 60)],
-        "PARTIAL. Proved: the first step only records the buffer and emits ONE on-success sub-message (swap floor(amount/2) to "
-        "itself); refused on empty and >2-asset pools; locks only for the sender; the reply requires the pool manager's balances "
-        "to be exactly what that swap must have produced, clears the buffer and deposits exactly the kept half plus the swap "
-        "proceeds for the chosen receiver (the ordinary two-asset deposit); no other message touches the buffer; any failure "
-        "rejects the whole transaction (nothing changes); rejected when swaps are disabled. Not one theorem: end-to-end equality "
-        "with the manual two-step world — covered by the correspondence (odd/even amounts, locks, faults at every internal call)."),
+        "PROOF at transaction level on the chain model, for every world, sender, pool, amount and tolerance: a successful "
+        "single-asset ProvideLiquidity transaction IS the swap of floor(amount/2) on the pool as it was (perform_swap, caller's swap "
+        "tolerance) followed by the ordinary two-asset deposit (provide_liquidity) of the kept half plus exactly the swap's proceeds, "
+        "made by the pool manager for the chosen receiver (or locked for it) on the pool as the swap left it: same reserves, LP and "
+        "fees as those two handlers produce (C14_single_asset_is_swap_then_deposit); the single-asset buffer is empty in every world "
+        "reachable from genesis by any history (C14_no_bookkeeping_left, by the same induction over call trees as C01); all-or-nothing "
+        "and refusal with swaps disabled (chain model, faults at every internal call); refused on empty and >2-asset pools; never "
+        "locks for or expands a position of someone else. Gap: the comparison is with the two handlers run by the pool manager, not "
+        "with a depositor doing both steps by hand (who would receive the proceeds in between) — balances are covered by C01 and by "
+        "the correspondence (odd/even amounts, locks, tolerances, faults). Monitor mon_C14: buffer flag clear in every observed snapshot."),
     "C19": P("Props/C19.v", [("pool-scn", 64, 800), ("chain-pool", 16, 200), ("probe-scn", 15, 60)],
         "PARTIAL. Proved: Newton results through the swap path always meet the stopping test, an exhausted budget is ConvergeError; "
         "output + fees never exceed the reserve; the exact-invariant oracle (integer polynomial, strictly increasing) is sound. "
